@@ -19,7 +19,8 @@ RULE = (
     "one instruction (any class of any flavour) with exactly one operand field outside its range (register index 16.., "
     "8-bit immediate <0 or >255, integer/address outside int32, app id outside uint16, version byte outside uint8), "
     "reached by direct construction, through the text assembler and through the SDK (rotation n/d, measurement basis "
-    "rotations, template instantiation, app id, NV hardware angle normalisation); every shape x position x outlier list "
+    "rotations, template instantiation, app id, NV hardware angle normalisation), with the value also given as a numpy integer, and "
+    "(instructions the NV transpiler copies or retargets) through NV transpilation before encoding; every shape x position x outlier list "
     "enumerated + Hypothesis-random outliers.  Every case is non-trivial; distinct by (route, class, position, value)"
 )
 ASSUMPTIONS = ["'raises an error' = any exception from bytes()/flush()/instantiate(); the SDK may also reject earlier (counted as rejected)"]
@@ -108,7 +109,33 @@ def check_direct(case) -> str:
     fname = case["flavour"]
     cls = g.class_by_name(fname, case["cls"]) if case.get("cls") else None
     instrs = [g.build(cls, case["vals"])] if cls else []
+    if case.get("np"):
+        # the same value as a numpy integer (angles and indices computed with numpy reach the encoder that way)
+        import numpy as np
+
+        from netqasm.lang.operand import Immediate
+
+        name = g.shape_of(cls)[case["pos"][0]][0]
+        setattr(instrs[0], name, Immediate(getattr(np, case["np"])(case["value"])))
     try:
+        if case.get("via") == "nv-transpile":
+            from netqasm.sdk.transpile import NVSubroutineTranspiler
+
+            sub = Subroutine(instructions=instrs, netqasm_version=(0, 0), app_id=0)
+            sub = NVSubroutineTranspiler(sub).transpile()
+            raw = bytes(sub)
+            fname = "nv"
+            sub = Subroutine(instructions=[g.build(cls, case["vals"])], netqasm_version=(0, 0), app_id=0)  # what was asked for
+            back = None
+            try:
+                from netqasm.lang.parsing import deserialize
+
+                back = deserialize(raw, flavour=_flav("nv"))
+            except Exception as e:
+                raise Failure(f"direct:{case['what']}:nv-transpile", case, f"transpiled and encoded without error but bytes do not decode: {type(e).__name__}: {e}")
+            if sub.instructions[0] not in back.instructions:
+                raise Failure(f"direct:{case['what']}:nv-transpile", case, f"silently altered: {[str(i) for i in sub.instructions]} was transpiled for NV and encoded to bytes that decode as {[str(i) for i in back.instructions]}")
+            return "equal"
         if case.get("via") == "instantiate":
             sub = Subroutine(instructions=instrs, netqasm_version=tuple(case.get("version", [0, 0])), app_id=0)
             sub.instantiate(case.get("app_id", 0), {})
@@ -118,6 +145,8 @@ def check_direct(case) -> str:
         else:
             sub = Subroutine(instructions=instrs, netqasm_version=tuple(case.get("version", [0, 0])), app_id=case.get("app_id", 0))
         raw = bytes(sub)
+    except Failure:
+        raise
     except Exception:
         return "raised"
     try:
@@ -184,6 +213,10 @@ def check_sdk(case) -> str:
 
     what = case["what"]
     v = case["value"]
+    if case.get("np"):
+        import numpy as np
+
+        v = getattr(np, case["np"])(v)
     fname = "vanilla"
     set_is_using_hardware(False)
     try:
@@ -290,6 +323,10 @@ def _text_of(cls, vals) -> str:
     return str(g.build(cls, vals))
 
 
+def _shared_classes():
+    return set(g.flavour_classes("vanilla")) & set(g.flavour_classes("nv"))
+
+
 def enumerated() -> List[Any]:
     cases = []
     for fname in g.FLAVOURS:
@@ -300,6 +337,11 @@ def enumerated() -> List[Any]:
                     vals = make_vals(shape, pos, sub, kind, v)
                     what = f"{kind}"
                     cases.append({"route": "direct", "what": what, "flavour": fname, "cls": cls.__name__, "vals": vals, "pos": [pos, sub], "value": v})
+                    if kind in ("u8", "i32") and sub is None:
+                        cases.append({"route": "direct", "what": what, "np": "int64", "flavour": fname, "cls": cls.__name__, "vals": vals, "pos": [pos, sub], "value": v})
+                    if fname == "vanilla" and cls in _shared_classes():
+                        # instructions the NV transpiler copies (or, for branches, retargets): compile for NV, then encode
+                        cases.append({"route": "direct", "what": what, "via": "nv-transpile", "flavour": fname, "cls": cls.__name__, "vals": vals, "pos": [pos, sub], "value": v})
                     try:
                         text = _text_of(cls, vals)
                     except Exception:
@@ -329,6 +371,12 @@ def enumerated() -> List[Any]:
         for p in range(3):
             cases.append({"route": "sdk", "what": "meas_rot", "pos": p, "value": v})
         cases.append({"route": "sdk", "what": "template", "value": v})
+        for npt in ("int64", "int32"):
+            for axis in "XYZ":
+                cases.append({"route": "sdk", "what": "rot_n", "axis": axis, "value": v, "np": npt})
+                cases.append({"route": "sdk", "what": "rot_d", "axis": axis, "value": v, "np": npt})
+            cases.append({"route": "sdk", "what": "template", "value": v, "np": npt})
+            cases.append({"route": "sdk", "what": "meas_rot", "pos": 1, "value": v, "np": npt})
     for d in range(0, 4):
         for n in [16, 17, 31, 32, 64, 100, 128, 255]:
             if n * 2 ** (4 - d) > 255:
@@ -348,9 +396,13 @@ def st_random():
             def mk(t):
                 basevals, (pos, sub, kind), v, route = t
                 vals = make_vals(shape, pos, sub, kind, v, base=basevals)
-                c = {"route": route, "what": kind, "flavour": fname, "cls": cls.__name__, "vals": vals, "pos": [pos, sub], "value": v}
+                c = {"route": "direct" if route in ("numpy", "nv-transpile") else route, "what": kind, "flavour": fname, "cls": cls.__name__, "vals": vals, "pos": [pos, sub], "value": v}
                 if route == "text":
                     c["text"] = PRE + _text_of(cls, vals)
+                if route == "numpy" and kind in ("u8", "i32") and sub is None:
+                    c["np"] = "int64"
+                if route == "nv-transpile" and fname == "vanilla" and cls in _shared_classes():
+                    c["via"] = "nv-transpile"
                 return c
 
             def outl(p):
@@ -361,7 +413,7 @@ def st_random():
                     return st.integers(256, 2**20) | st.integers(-(2**20), -1) | st.sampled_from(OUT_U8)
                 return st.integers(2**31, 2**40) | st.integers(-(2**40), -(2**31) - 1) | st.sampled_from(OUT_I32)
 
-            return st.sampled_from(poss).flatmap(lambda p: st.tuples(base, st.just(p), outl(p), st.sampled_from(["direct", "text"]))).map(mk)
+            return st.sampled_from(poss).flatmap(lambda p: st.tuples(base, st.just(p), outl(p), st.sampled_from(["direct", "text", "numpy", "nv-transpile"]))).map(mk)
 
         return st.one_of([for_cls(c) for c in classes])
 
@@ -374,7 +426,7 @@ def shard(ctx: Ctx) -> None:
     def run(case):
         res = check(case)
         key = {k: case[k] for k in case if k != "vals"} if case["route"] != "direct" else case
-        stt.case(key, True, [f"route:{case['route']}", f"what:{case['what']}", f"result:{res}"],
+        stt.case(key, True, [f"route:{case['route']}" + (":numpy-integer" if case.get("np") else "") + (":" + case["via"] if case.get("via") else ""), f"what:{case['what']}", f"result:{res}"],
                  sample={k: case[k] for k in ("route", "what", "value", "text", "cls", "vals") if k in case})
         if res == "raised":
             stt.rejected[case["what"]] += 1
